@@ -44,9 +44,9 @@ ASSUMPTIONS = [
 ]
 STUBS = ["str()/format() of a symbolic int returns a placeholder in ensure_minimum_chunksize (only its error message formats numbers)", "dask.array.overlap.int -> ShimInt (coerce_depth_type)", "dask.array.overlap.map_blocks -> recorder (trim_internal's chunks= argument)",
          "recording block object for _trim"]
-ENUM = ["number of blocks per axis, depth kind (int / tuple), boundary kind"]
+ENUM = ["number of blocks per axis, depth kind (int / tuple), boundary kind", "every input of the sliding_window_view obligations"]
 OUTSIDE = ["boundary value generation (periodic/reflect/nearest/constant: NumPy-level slicing and concatenation; only e2e witnesses)",
-           "sliding_window_view", "more than 3 blocks per axis, more than 2 dimensions"]
+           "sliding_window_view beyond the solver-enumerated sizes (its per-block work is NumPy's: no symbolic claim)", "more than 3 blocks per axis, more than 2 dimensions"]
 BOUNDS = {
     "quick": dict(min_chunksize="<=3 chunks, sizes >= 0 unbounded, size >= 0 unbounded", layer="1-d: 1..3 blocks; 2-d: 2x2 blocks; chunk sizes >= 1 unbounded; depths >= 0 unbounded (<= min chunk)"),
     "thorough": dict(min_chunksize="<=5 chunks", layer="1-d: 1..4 blocks; 2-d: up to 3x2 blocks"),
@@ -361,6 +361,44 @@ def mk_coerce():
     return Obligation("coerce_depth", setup, run, patches=_patches)
 
 
+def mk_sliding(nchunks, maxc, maxw):
+    """sliding_window_view against NumPy: its chunk handling (ensure_minimum_chunksize(window, ...), overlap depth window-1, per-block view) is
+    driven through the public function; sizes are concretised when the array is built (solver-enumerated)."""
+    import operator
+
+    def setup(e):
+        chunks = tuple(e.int(f"c{i}", 1, maxc) for i in range(nchunks))
+        w = e.int("w", 1, maxw)
+        tot = chunks[0]
+        for c in chunks[1:]:
+            tot = tot + c
+        e.assume(lambda: w <= tot)
+        auto = e.flag("automatic_rechunk")
+        return chunks, w, auto
+
+    def run(e, chunks, w, auto):
+        chunks = tuple(operator.index(c) for c in chunks)
+        w = operator.index(w)
+        n = sum(chunks)
+        x = np.arange(n) * 3 + 1
+        d = da.from_array(x, chunks=(chunks,))
+        want = np.lib.stride_tricks.sliding_window_view(x, w)
+        r = da.lib.stride_tricks.sliding_window_view(d, w, automatic_rechunk=auto) if hasattr(da, "lib") else OV.sliding_window_view(d, w, automatic_rechunk=auto)
+        e.check(r.shape == want.shape, f"lazy shape {r.shape} != NumPy {want.shape}")
+        got = r.compute(scheduler="sync")
+        e.check(got.shape == want.shape and bool((got == want).all()), f"sliding_window_view(window={w}) with chunks {chunks} differs from NumPy")
+        e.check(tuple(sum(c) for c in r.chunks) == want.shape, "lazy chunks do not add up to the shape")
+        # 2-d: window along axis 0 of a (n, 2) array
+        x2 = np.arange(2 * n).reshape(n, 2)
+        d2 = da.from_array(x2, chunks=(chunks, (1, 1)))
+        want2 = np.lib.stride_tricks.sliding_window_view(x2, w, axis=0)
+        got2 = OV.sliding_window_view(d2, w, axis=0, automatic_rechunk=auto).compute(scheduler="sync")
+        e.check(got2.shape == want2.shape and bool((got2 == want2).all()), f"2-d sliding_window_view(window={w}, axis=0) with chunks {chunks} differs from NumPy")
+        return list(got.shape)
+
+    return Obligation(f"sliding_window_view[chunks={nchunks},c<={maxc},w<={maxw}]", setup, run)
+
+
 def obligations(tier):
     obs = []
     if tier == "quick":
@@ -370,7 +408,9 @@ def obligations(tier):
                 obs.append(mk_layer((n,), (k,)))
         obs.append(mk_layer((2, 2), ("int", "tuple")))
         obs.append(mk_layer((2, 2), ("zero", "int")))
+        obs += [mk_sliding(2, 4, 5), mk_sliding(3, 3, 4)]
     else:
+        obs += [mk_sliding(2, 6, 7), mk_sliding(3, 4, 6), mk_sliding(4, 3, 5)]
         obs += [mk_min_chunksize(n) for n in (1, 2, 3, 4, 5)]
         for n in (1, 2, 3, 4):
             for k in ("int", "tuple"):
